@@ -330,9 +330,12 @@ class Check:
             if guards:
                 self.cov["cases_in_a_known_finding_class"] = self.cov.get("cases_in_a_known_finding_class", 0) + 1
             if not prop_ok:
-                if guards and all(g in known_by_guard for g in guards):
+                # the guards are syntactic classes of the client document; a failing case is
+                # explained by a listed finding when it lies in at least one listed class
+                if any(g in known_by_guard for g in guards):
                     for g in guards:
-                        self.known_seen.setdefault(known_by_guard[g]["id"], case)
+                        if g in known_by_guard:
+                            self.known_seen.setdefault(known_by_guard[g]["id"], case)
                 else:
                     self.violations.append((case, "property oracle fails on the implementation's observed behaviour"))
             if not model_ok:
